@@ -1121,3 +1121,110 @@ fn c18_truncate_fresh_unify_r5() {
 fn c18_truncate_fresh_plain_r3() {
   c18_truncate_fresh(false, 3, 40, false);
 }
+
+// =============================================================================================
+// C05 by bounded history: a(n1) b(n2) c(n3); release b; [close/reopen]; d = alloc(m); [close/reopen]; e = alloc(k)
+// The reopen is the transformation Engine M established for the real closure (R1): zero [stored cursor, capacity).
+// The tail above the cursor is filled with arbitrary bytes first (a file whose cursor was rewound, or a crashed one).
+// =============================================================================================
+pub(crate) fn c05_reopen_transform<A: Allocator>(arena: &A) {
+  let allocated = arena.allocated();
+  let len = arena.capacity();
+  if len > allocated {
+    unsafe { core::ptr::write_bytes(arena.raw_mut_ptr().add(allocated), 0, len - allocated) };
+  }
+}
+pub(crate) fn c05_hist<A: Allocator>(fl: Freelist) {
+  const CAP: u32 = 128;
+  let arena: A = Options::new().with_capacity(CAP).with_unify(true).with_freelist(fl).with_maximum_retries(1).with_minimum_segment_size(8).alloc::<A>().unwrap();
+  let dofs = arena.data_offset() as u32;
+  let (n1, n2, n3): (u32, u32, u32) = (kani::any(), kani::any(), kani::any());
+  kani::assume(n1 >= 1 && n1 <= 9 && n2 >= 17 && n2 <= 32 && n3 >= 1 && n3 <= 12);
+  let (va, vc, vd): (u8, u8, u8) = (kani::any(), kani::any(), kani::any());
+  kani::assume(va != 0 && vc != 0 && vd != 0);
+  let p = arena.raw_mut_ptr();
+  let (ea, eb, ec);
+  {
+    let mut a = arena.alloc_bytes(n1).unwrap();
+    let b = arena.alloc_bytes(n2).unwrap();
+    let mut c = arena.alloc_bytes(n3).unwrap();
+    ea = (a.offset() as u32, a.capacity() as u32);
+    eb = (b.buffer_offset() as u32, b.buffer_capacity() as u32);
+    ec = (c.offset() as u32, c.capacity() as u32);
+    unsafe {
+      core::ptr::write_bytes(p.add(ea.0 as usize), va, ea.1 as usize);
+      core::ptr::write_bytes(p.add(eb.0 as usize), 0xEE, eb.1 as usize);
+      core::ptr::write_bytes(p.add(ec.0 as usize), vc, ec.1 as usize);
+      a.detach();
+      c.detach();
+    }
+    core::mem::forget(a);
+    core::mem::forget(c);
+    drop(b);
+  }
+  let cur0 = arena.allocated();
+  // arbitrary bytes above the cursor
+  let junk: u8 = kani::any();
+  unsafe { core::ptr::write_bytes(p.add(cur0), junk, CAP as usize - cur0) };
+  let (disc0, min0, rem0) = (arena.discarded(), arena.minimum_segment_size(), arena.remaining());
+  // ---- first close / reopen ----
+  c05_reopen_transform(&arena);
+  assert!(arena.allocated() == cur0 && arena.discarded() == disc0 && arena.minimum_segment_size() == min0 && arena.remaining() == rem0 && arena.data_offset() as u32 == dofs,
+    "C05: allocated/discarded/minimum segment size/remaining/data_offset survive the reopen");
+  let (wa, wc): (u32, u32) = (kani::any(), kani::any());
+  kani::assume(wa >= ea.0 && wa < ea.0 + ea.1 && wc >= ec.0 && wc < ec.0 + ec.1);
+  assert!(unsafe { rd8(p, wa) } == va && unsafe { rd8(p, wc) } == vc, "C05: handed-out bytes unchanged by the reopen");
+  let m: u32 = kani::any();
+  kani::assume(m >= 1 && m <= 40);
+  let g = do_alloc::<A, u8>(&arena, Kind::Bytes, m);
+  if g.ok {
+    assert!(disjoint(g.bo, g.bc, ea.0, ea.1) && disjoint(g.bo, g.bc, ec.0, ec.1), "C05: allocation after the reopen avoids ranges live before closing");
+    assert!(g.bo >= dofs && g.bo + g.bc <= CAP, "C05: allocation after the reopen lies in the data area");
+    let z: u32 = kani::any();
+    kani::assume(z >= g.o && z < g.o + g.c);
+    assert!(unsafe { rd8(p, z) } == 0, "C08: memory handed out after a reopen is zero-filled");
+    unsafe { core::ptr::write_bytes(p.add(g.o as usize), vd, g.c as usize) };
+    // a range that had been freed remains reusable: a request that fits the freed segment and not the fresh tail comes from it
+    if g.o < cur0 as u32 {
+      assert!(!matches!(fl, Freelist::None) && g.o >= eb.0 && g.o + g.c <= eb.0 + eb.1, "C05: recycled memory after the reopen comes from the range freed before closing");
+    }
+  } else {
+    assert!(g.space_err, "C04: failure is InsufficientSpace");
+  }
+  // ---- second close / reopen ----
+  let cur1 = arena.allocated();
+  let disc1 = arena.discarded();
+  c05_reopen_transform(&arena);
+  assert!(arena.allocated() == cur1 && arena.discarded() == disc1 && arena.minimum_segment_size() == min0, "C05: second reopen keeps the state too");
+  assert!(unsafe { rd8(p, wa) } == va && unsafe { rd8(p, wc) } == vc, "C05: handed-out bytes unchanged by the second reopen");
+  if g.ok {
+    let wd: u32 = kani::any();
+    kani::assume(wd >= g.o && wd < g.o + g.c);
+    assert!(unsafe { rd8(p, wd) } == vd, "C05: bytes handed out between two reopens survive the second one");
+  }
+  let k: u32 = kani::any();
+  kani::assume(k >= 1 && k <= 40);
+  let h = do_alloc::<A, u8>(&arena, Kind::Bytes, k);
+  if h.ok {
+    assert!(disjoint(h.bo, h.bc, ea.0, ea.1) && disjoint(h.bo, h.bc, ec.0, ec.1), "C05: allocation after the second reopen avoids the old live ranges");
+    if g.ok {
+      assert!(disjoint(h.bo, h.bc, g.bo, g.bc), "C05: allocation after the second reopen avoids the range handed out between the reopens");
+    }
+  }
+  kani::cover!(g.ok && g.o < cur0 as u32, "after the reopen: served from the range freed before closing");
+  kani::cover!(g.ok && g.o >= cur0 as u32, "after the reopen: served from the zeroed tail");
+  kani::cover!(g.ok && h.ok, "both follow-up allocations succeed");
+  core::mem::forget(arena);
+}
+// @h props=C05,C08 tier=thorough timeout=2400 mem=20 bounds=CAP=128,unify,history=a(1..9)b(17..32)c(1..12)-drop(b)-reopen-alloc(1..40)-reopen-alloc(1..40)
+#[kani::proof]
+#[kani::unwind(4)]
+fn c05_hist_two_cycles_unsync_opt() {
+  c05_hist::<unsync::Arena>(Freelist::Optimistic);
+}
+// @h props=C05,C08 tier=thorough timeout=2400 mem=20 bounds=CAP=128,unify,history=a(1..9)b(17..32)c(1..12)-drop(b)-reopen-alloc(1..40)-reopen-alloc(1..40),retries=1
+#[kani::proof]
+#[kani::unwind(4)]
+fn c05_hist_two_cycles_sync_pess() {
+  c05_hist::<sync::Arena>(Freelist::Pessimistic);
+}
